@@ -227,6 +227,9 @@ class kLeastAbsErrorsCycles(walkmodel.AbstractWalkModelDiGraph):
         # If we get subset constraints, and the coverage fraction is 1
         # then we know their edges must appear in the solution, so we add their edges to the trusted edges for safety
         self.optimization_options["trusted_edges_for_safety"] = self.trusted_edges_for_safety or set()
+        # the constraints are used below (their edges become trusted): validate them first
+        if self.subset_constraints is not None:
+            self._check_valid_subset_constraints()
         if self.subset_constraints is not None:
             if self.subset_constraints_coverage == 1.0:
                 for constraint in self.subset_constraints:
